@@ -1,6 +1,6 @@
 (* C05 correspondence: how one observed implementation result is compared with the model.
    Used by the generated run/C05/cases_*.v files.  Not part of any theorem. *)
-From Hy Require Import lib.Harness model.C05_Frag model.C05_Send model.C05_SendIds.
+From Hy Require Import lib.Harness model.C05_Frag model.C05_Send model.C05_SendIds model.C05_Sess.
 From Coq Require Import ZArith.
 Local Open Scope N_scope.
 
@@ -29,6 +29,13 @@ Inductive case :=
 (* long operation: summary of the ids of one history of n fragmented sends (every message split) - the
    observation that discharges the id hypothesis of the send-path theorems, up to chance (see ids_ok) *)
 | CSendIds (n w thr zeros : N) (lags : list N) (period : N) (sample : list N) (rep : option (N * N)) (ok : bool)
+(* reassembly through the session managers (model/C05_Sess.v): srv = server side; iv = sweep interval, timeout, off =
+   time of the first operation (ms); ms = the messages (each split against its limit); ops = [0;j;x] fragment x of
+   message j arrives (over the wire: serialize, parse), [1;d] d ms pass, [2;s] client closes session s, [3] client opens
+   a session; exp = per delivery [position; session; |addr|; digest addr; |payload|; digest payload] (None: panic);
+   cnts = size of the session table after every operation *)
+| CSess (srv : bool) (iv timeout off : N) (ms : list (mspec * Z)) (ops : list (list N))
+        (exp : option (list (list N))) (cnts : list N)
 | CFrag (m : mspec) (max : Z) (exp : option (list (list N)))
 | CSeq (ms : list (mspec * Z)) (order : list (nat * nat)) (exp : option (list (list N)))
 | CWire (m : mspec) (buf : nat) (n : Z) (hsz : nat) (dg : option N) (p : pres)
@@ -179,8 +186,70 @@ Definition ids_check (n w thr zeros : N) (lags : list N) (period : N) (sample : 
       end
   end.
 
+(* ---- session managers ---- *)
+Definition sum_out (pos : N) (x : msg) : list N :=
+  [pos; sid x; N.of_nat (length (addr x)); digest (addr x); N.of_nat (length (data x)); digest (data x)].
+
+Definition op_of (srv : bool) (all : list (list msg)) (o : list N) : option mop :=
+  match o with
+  | [0; j; x] =>
+      match pick all (N.to_nat j, N.to_nat x) with
+      | Some f => match parse (serialize f) with
+                  | Ok pm => Some (if srv then MArrS pm else MArrC pm)
+                  | _ => None      (* the receive loop skips a datagram that does not parse *)
+                  end
+      | None => None
+      end
+  | [1; d] => Some (MSleep d)
+  | [2; s] => Some (MClose s)
+  | [3] => Some MOpen
+  | _ => None
+  end.
+
+Fixpoint dedupN (l : list N) : list N :=
+  match l with
+  | [] => []
+  | x :: t => if existsb (N.eqb x) t then dedupN t else x :: dedupN t
+  end.
+
+Definition tab_count (keys : list N) (t : stab) : N :=
+  N.of_nat (length (filter (fun k => match t k with Some _ => true | None => false end) keys)).
+
+Fixpoint sess_trace (iv timeout : N) (srv : bool) (all : list (list msg)) (keys : list N) (st : mstate) (pos : N)
+         (ops : list (list N)) : option (list (list N) * list N) :=
+  match ops with
+  | [] => Some ([], [])
+  | o :: t =>
+      match (match op_of srv all o with Some op => sm_step iv timeout st op | None => Ok (st, None) end) with
+      | Ok (st1, out) =>
+          match sess_trace iv timeout srv all keys st1 (pos + 1) t with
+          | Some (em, cn) => Some (match out with Some x => sum_out pos x :: em | None => em end,
+                                   tab_count keys (ms_tab st1) :: cn)
+          | None => None
+          end
+      | _ => None
+      end
+  end.
+
+(* every key a history can touch: the session ids of its messages, and the ids NewUDP can hand out *)
+Definition sess_keys (all : list (list msg)) (ops : list (list N)) : list N :=
+  dedupN (map sid (concat all) ++ map N.of_nat (seq 1 (length ops))).
+
+Definition sess_check (srv : bool) (iv timeout off : N) (ms : list (mspec * Z)) (ops : list (list N))
+           (exp : option (list (list N))) (cnts : list N) : bool :=
+  match all_some (map frags_of ms) with
+  | None => false
+  | Some all =>
+      match sess_trace iv timeout srv all (sess_keys all ops) (ms_init off) 0 ops, exp with
+      | Some (em, cn), Some e => LL_eqb em e && N_list_eqb cn cnts
+      | None, None => true
+      | _, _ => false
+      end
+  end.
+
 Definition check (c : case) : bool :=
   match c with
+  | CSess srv iv timeout off ms ops exp cnts => sess_check srv iv timeout off ms ops exp cnts
   | CSendIds n w thr zeros lags period sample rep ok => ids_check n w thr zeros lags period sample rep ok
   | CSend sid buflen steps obs => send_check sid buflen d_init steps obs
   | CFrag m max exp =>
